@@ -26,6 +26,7 @@ type tcase struct {
 	Cut         bool     `json:"cut_off_event_by_limit"`
 	Start       string   `json:"start"`        // reset | continue | tail (offsets_op)
 	StartOffset int      `json:"start_offset"` // saved offset for start=continue (always a line boundary of parts[0])
+	Prev        bool     `json:"previous_job"` // the worker first reads another file whose content is the unterminated "ab"
 }
 
 // ---- reference model (boring) ----------------------------------------------
@@ -128,6 +129,7 @@ func nontrivial(tc *tcase, content string) bool {
 // ---- recording controller: what the worker hands over + the real first gate of Pipeline.In ---------------
 
 type inRec struct {
+	name  string
 	off   int64
 	data  string // copy of the bytes the worker passed to In
 	pOK   bool   // result of the real Pipeline.checkInputBytes on those bytes (same settings)
@@ -146,7 +148,7 @@ type recorder struct {
 func (c *recorder) IncReadOps()                           { c.reads++ }
 func (c *recorder) IncMaxEventSizeExceeded(lvs ...string) { c.exceeded++ }
 func (c *recorder) In(_ pipeline.SourceID, sourceName string, offsets pipeline.Offsets, data []byte, _ bool, meta metadata.MetaData) uint64 {
-	rec := inRec{off: offsets.VerifCurrent(), data: string(data)}
+	rec := inRec{off: offsets.VerifCurrent(), data: string(data), name: sourceName}
 	// exactly what Pipeline.In does first, on the worker's own buffer (it may write into it)
 	out, cut, ok := c.pipe.VerifCheckInputBytes(data, sourceName, meta)
 	rec.pOK, rec.pCut, rec.pData = ok, cut, string(out)
@@ -168,11 +170,15 @@ type rigEntry struct {
 }
 
 type checker struct {
-	run   *vreport.Run
-	path  string
+	run      *vreport.Run
+	path     string
+	prevPath string
 	wf    *os.File
 	rigs  map[limit]*rigEntry
 	npipe int
+
+	holds      string // content of the scratch file
+	holdsValid bool
 }
 
 func (c *checker) entry(l limit) *rigEntry {
@@ -234,10 +240,38 @@ func (c *checker) write(s string) {
 	if len(s) == 0 {
 		return
 	}
+	c.holdsValid = false
 	if _, err := c.wf.WriteString(s); err != nil {
 		panic(err)
 	}
+	c.holds += s
+	c.holdsValid = true
 }
+
+// prepare makes the scratch file hold exactly p0, with as few file operations as possible
+// (the file is left alone when it already holds p0, shrunk when p0 is a prefix of what it holds).
+func (c *checker) prepare(p0 string) {
+	if c.holdsValid && c.holds == p0 {
+		return
+	}
+	if c.holdsValid && strings.HasPrefix(c.holds, p0) {
+		if err := c.wf.Truncate(int64(len(p0))); err != nil {
+			panic(err)
+		}
+	} else {
+		if err := c.wf.Truncate(0); err != nil {
+			panic(err)
+		}
+		c.holdsValid = false
+		c.holds = ""
+		c.write(p0)
+	}
+	c.holds = p0
+	c.holdsValid = true
+}
+
+// dropRig forgets a rig after a panic or a violation (its bookkeeping may be inconsistent).
+func (c *checker) dropRig(tc *tcase) { delete(c.rigs, limit{tc.Max, tc.Cut}) }
 
 // check runs one case on the real read loop and compares with the reference. It returns the number of violations.
 func (c *checker) check(tc *tcase) int {
@@ -248,38 +282,51 @@ func (c *checker) check(tc *tcase) int {
 	rec.recs = rec.recs[:0]
 	rec.exceeded, rec.reads, rec.seq = 0, 0, 0
 
-	if err := c.wf.Truncate(0); err != nil {
-		panic(err)
-	}
-	c.write(tc.Parts[0])
+	c.prepare(tc.Parts[0])
 
 	nviol := 0
 	violation := func(clause, detail string) {
 		nviol++
-		r.Violation(clause, feat(tc), fmt.Sprintf("%s\ncase: parts=%q read_buffer_size=%d max_event_size=%d cut_off=%v start=%s@%d",
-			detail, tc.Parts, tc.Buf, tc.Max, tc.Cut, tc.Start, tc.StartOffset), tc)
+		r.Violation(clause, feat(tc), fmt.Sprintf("%s\ncase: parts=%q read_buffer_size=%d max_event_size=%d cut_off=%v start=%s@%d previous_job=%v",
+			detail, tc.Parts, tc.Buf, tc.Max, tc.Cut, tc.Start, tc.StartOffset, tc.Prev), tc)
 	}
 
 	content := ""
 	roundsOK := true
+	var jobs []*file.VerifJob
+	died := false
+	e.rig.StartWorker(rec, tc.Buf)
 	panicked, val, stack := vplug.Try(func() {
-		if err := e.rig.Open(c.path, tc.Start, int64(tc.StartOffset)); err != nil {
+		if tc.Prev {
+			// the same worker first serves another file that ends in an unterminated line
+			pj, err := e.rig.Open(c.prevPath, file.VerifStartReset, 0)
+			if err != nil {
+				panic(err)
+			}
+			jobs = append(jobs, pj)
+			if !e.rig.WaitDone(pj) {
+				died = true
+				return
+			}
+			r.Steps(1)
+		}
+		j, err := e.rig.Open(c.path, tc.Start, int64(tc.StartOffset))
+		if err != nil {
 			panic(err)
 		}
+		jobs = append(jobs, j)
 		for k, part := range tc.Parts {
 			if k > 0 {
 				c.write(part)
-				if err := e.rig.Notify(); err != nil {
+				if err := e.rig.Notify(j); err != nil {
 					panic(err)
 				}
 			}
 			content += part
-			if e.rig.Queued() != 1 {
-				violation("resume", fmt.Sprintf("round %d: %d jobs queued for the worker, want 1", k, e.rig.Queued()))
-				roundsOK = false
+			if !e.rig.WaitDone(j) {
+				died = true
 				return
 			}
-			e.rig.Round(rec, tc.Buf)
 			r.Steps(1)
 			// held back until completed: after the round exactly the complete lines of the content so far were handed over
 			if wantN := len(refExpected(tc, content)); len(rec.recs) != wantN && roundsOK {
@@ -289,17 +336,44 @@ func (c *checker) check(tc *tcase) int {
 			}
 		}
 	})
-	if panicked {
-		e.rig.Abandon()
-		delete(c.rigs, limit{tc.Max, tc.Cut})
+	if !panicked && !died {
+		e.rig.StopWorker()
+		if e.rig.PanicVal != "" {
+			died = true
+		}
+	}
+	if panicked || died {
+		if died {
+			val, stack = e.rig.PanicVal, e.rig.PanicStack
+		} else {
+			e.rig.StopWorker()
+		}
+		for _, j := range jobs {
+			e.rig.Abandon(j)
+		}
+		c.dropRig(tc)
 		f := feat(tc)
 		f["site"] = vreport.PanicSite(stack)
 		r.Violation("panic", f, fmt.Sprintf("panic: %s\ncase: %+v\n%s", val, *tc, stack), tc)
 		return nviol + 1
 	}
-	e.rig.Close()
+	for _, j := range jobs {
+		e.rig.Close(j)
+	}
 	r.Steps(int64(len(rec.recs)))
+	defer func() {
+		if nviol > 0 {
+			c.dropRig(tc)
+		}
+	}()
 
+	for i, g := range rec.recs {
+		if g.name != c.path {
+			roundsOK = false
+			violation("foreign", fmt.Sprintf("In call %d (%d,%q) carries source name %q, want %q", i, g.off, g.data, g.name, c.path))
+			break
+		}
+	}
 	ws := refExpected(tc, content)
 	if roundsOK {
 		for i, w := range ws {
@@ -419,7 +493,12 @@ func TestVerif(t *testing.T) {
 		wf.Close()
 		os.Remove(path)
 	}()
-	c := &checker{run: r, path: path, wf: wf, rigs: map[limit]*rigEntry{}}
+	prevPath := path + ".prev"
+	if err := os.WriteFile(prevPath, []byte("ab"), 0o644); err != nil {
+		t.Fatal(err)
+	}
+	defer os.Remove(prevPath)
+	c := &checker{run: r, path: path, prevPath: prevPath, wf: wf, rigs: map[limit]*rigEntry{}}
 
 	if rc := r.ReplayCase(); rc != nil {
 		var tc tcase
@@ -444,7 +523,7 @@ func TestVerif(t *testing.T) {
 
 	maxLen, maxParts, maxLen3 := 8, 2, 0
 	if r.Thorough() {
-		maxLen, maxParts, maxLen3 = 10, 3, 9
+		maxLen, maxParts, maxLen3 = 10, 3, 8
 	}
 	bufs := []int{1, 2, 3, 4, 5, 8}
 	var limits []limit
@@ -458,10 +537,11 @@ func TestVerif(t *testing.T) {
 	r.Bound("cut_off_event_by_limit", []bool{false, true})
 	r.Bound("max_appends", maxParts)
 	r.Bound("max_content_len_for_3_appends", maxLen3)
-	r.Bound("starts", "reset; continue from every line boundary of the initial content; tail (initial content non-empty)")
+	r.Bound("previous_job", "for start=reset and read-buffer sizes 1, 8: also with the worker having just read another file that ends in the unterminated line \"ab\"")
+	r.Bound("starts", "reset; continue from every line boundary of the initial content; tail (initial content non-empty; read-buffer sizes 1, 3, 8 only)")
 	r.Rule("every content over {a,b,\\n} up to the length bound x every split into successive appends (first part may be empty) x read-buffer size x (max_event_size, cut_off) x start (reset / continue at every line boundary of the first part / tail); " +
 		"non-trivial = a delivered line crosses a read-chunk or append boundary, or a line is over the limit; distinct = distinct (limit, start, content, sequence of (offset, data, data after checkInputBytes))")
-	r.Assume("one file, one worker, rounds run to EOF one after another (no concurrent writer during a read round); no truncation, rotation, symlinks or lz4")
+	r.Assume("one worker goroutine per case; at most one other file served before; appends happen only while the job is done (no writer concurrent with a read round); no truncation, rotation, symlinks or lz4")
 	r.Assume("saved offsets are line boundaries (that is what commit stores)")
 
 	ci := int64(-1)
@@ -496,8 +576,16 @@ func TestVerif(t *testing.T) {
 				for _, l := range limits {
 					for _, b := range bufs {
 						for _, s := range starts {
+							if s.kind == file.VerifStartTail && b != 1 && b != 3 && b != 8 {
+								continue // tail start: a subset of the buffer sizes
+							}
 							tc := tcase{Parts: parts, Buf: b, Max: l.max, Cut: l.cut, Start: s.kind, StartOffset: s.off}
 							c.check(&tc)
+							if s.kind == file.VerifStartReset && (b == 1 || b == 8) {
+								// non-initial worker state: the same worker has just served another file
+								tc.Prev = true
+								c.check(&tc)
+							}
 						}
 					}
 				}
